@@ -16,7 +16,7 @@
      pinned_run        the same for the ORIGINAL two-atomics code (yield before swap, store, fetch_add).
    The tie to the Rust code is the K-now channel (harness/src/chan_now.rs executes the same schedules on the
    real now() with N OS threads).  Assumption of the model: grants interleave sequentially consistently. *)
-From BP7 Require Import Base.Prelude Model.Clock Proofs.ClockProofs.
+From BP7 Require Import Base.Prelude Model.Clock Proofs.ClockProofs Proofs.ClockSublist.
 
 (* uniqueness: every thread count, every assignment of calls and clock readings, every schedule *)
 Theorem C09_unique : forall (cfg : config) (sched : list tid), NoDup (returned (run cfg sched)).
@@ -32,6 +32,15 @@ Proof. exact unique_from. Qed.
 Theorem C09_complete : forall (cfg : config) (sched : list tid),
   length (run_all cfg sched) = total_calls cfg /\ NoDup (returned (run_all cfg sched)).
 Proof. exact complete_unique. Qed.
+
+(* entry points that draw SEVERAL fresh timestamps per call and hand out some of them (helpers::rnd_bundle, ffi::helper_rnd_bundle draw two
+   and hand out the first): whatever subsequence of the generator's answers is handed out, no pair is handed out twice *)
+Theorem C09_handed_out_unique : forall (c : cell) (cfg : config) (sched : list tid) l,
+  subseq l (returned (run_from c cfg sched)) -> NoDup l.
+Proof. exact handed_out_unique. Qed.
+Example C09_ex_handed_out :      (* four draws, the first of each pair handed out *)
+  subseq [(1000, 0); (1000, 2)] (returned (run_all [[1000; 1000; 1000; 1000]] [])).
+Proof. vm_compute. apply subseq_keep, subseq_skip, subseq_keep, subseq_skip, subseq_nil. Qed.
 
 (* sequential clause.  Calls that do not overlap (each call gets its two grants consecutively, threads in
    any order): for consecutive calls a, b —
@@ -101,3 +110,4 @@ Print Assumptions C09_sequential.
 Print Assumptions C09_sequential_first.
 Print Assumptions C09_sequential_calls.
 Print Assumptions C09_pinned_refuted.
+Print Assumptions C09_handed_out_unique.
